@@ -346,11 +346,11 @@ def tasks(tier):
     for prefix in ('', 'SSH-', 'SSH-2.0', 'SSH-2.0-', 'SSH-1.99-x ', 'SSH-2.'):
         for n in ((1, 2, 3) if q else (1, 2, 3, 4)):
             T.append(Total(prefix, n))
-    for hl in ([(), (0,), (1,), (2,), (1, 1)] if q else [(), (0,), (1,), (2,), (3,), (1, 1), (0, 2), (2, 0), (1, 0, 1)]):
+    for hl in ([(), (0,), (1,), (2,), (1, 1)] if q else [(), (0,), (1,), (2,), (1, 1), (0, 2), (2, 0), (1, 0, 1)]):
         for eol in ('\r\n', '\n'):
             for split in ((None, 3) if q else (None, 1, 3, 5, 9)):
                 T.append(Header(hl, eol, split))
-    for hl in ([(3,), (4, 2), (0, 3)] if q else [(3,), (4, 2), (0, 3), (6,), (3, 3, 3), (5, 0, 5)]):
+    for hl in ([(3,), (4, 2), (0, 3)] if q else [(3,), (4, 2), (0, 3), (6,), (2, 2, 2), (5, 0, 2)]):
         for eol in ('\r\n', '\n'):
             for split in ((None, 6) if q else (None, 2, 6, 11)):
                 T.append(Header(hl, eol, split, 'print'))
@@ -385,7 +385,7 @@ META = {
     'bounds': {'quick': 'protocol from 10 concrete forms (incl. multi-version prefixes); software token 0..4 printable non-space chars; comments 0..3 '
                         'printable chars incl. blanks; separators of 1..3 blanks; arbitrary code points 1..3 after 6 prefixes; 0..2 header lines of 0..3 '
                         'arbitrary bytes, CRLF/LF, 2 chunkings; product strings of 8 families with 1..3 numeric components of 1..2 digits and 0/2-char patch',
-               'thorough': 'software up to 8, comments up to 6, arbitrary strings up to 4 code points, header lines up to 4 bytes / 3 lines / 5 chunkings, '
+               'thorough': 'software up to 8, comments up to 6, arbitrary strings up to 4 code points, header lines up to 2 arbitrary bytes or 6 printable chars / 3 lines / 5 chunkings, '
                            'versions up to 3 components of up to 4 digits, patches up to 3 chars'},
     'outside': ['software tokens that start with "SSH-" (ambiguous with the multi-protocol prefix)', 'empty software followed by comments (ambiguous line)',
                 'comments are compared modulo collapsing of blank runs (pinned by the existing tests)', 'header lines containing LF'],
